@@ -48,6 +48,7 @@ func C14(seed uint64, run int) *spec.Spec {
 		} else if r.Chance(0.2) {
 			st.Rename = r.U64()>>1 | 1
 		}
+		st.Quiet = r.Chance(0.3)
 		s.History = append(s.History, st)
 	}
 	return s
